@@ -30,6 +30,8 @@ def mk_inputs(nr, nl, nc, nt, tagf=lambda *a: '', tag=''):
     return pots, y, lon, col, tim, rad, shear, bulk
 
 
+TECHNIQUE += "; arrays as mutable objects: component views (np.real / np.imag), slices and element-wise arithmetic write through to the caller's tensors; view-aware in-place lint"
+
 def run(chk):
     repo = Repo(chk.repo)
     it = Interp(repo)
